@@ -4,6 +4,7 @@ import Lean.Data.Json
 import NadaVerif.Compile
 import NadaVerif.Spec.C02
 import NadaVerif.Spec.Graph
+import NadaVerif.Spec.Edge
 
 namespace NadaVerif.Driver
 open Lean NadaVerif
@@ -176,12 +177,14 @@ def parseOut (regs : List RVal) (j : Json) : Except String OutDecl :=
 def runEvents (m : Mach) (evs : List Json) : List Json × Mach := Id.run do
   let mut m := m
   let mut out : List Json := []
+  let mut clean := true
   for ev in evs do
     match ev.getObjVal? "c" with
     | .ok cj =>
       match parseCmd cj with
       | .error e => out := out ++ [Json.mkObj [("error", Json.str e)]]
       | .ok c =>
+        clean := clean && Edge.cleanStepB m c
         let (m', e) := step m c
         m := m'
         out := out ++ [match e with | none => Json.mkObj [("s", Json.null)] | some e => Json.mkObj [("s", Json.str (errStr e))]]
@@ -195,7 +198,8 @@ def runEvents (m : Mach) (evs : List Json) : List Json × Mach := Id.run do
           | .ok mir => out := out ++ [Json.mkObj [("mir", mirJson mir), ("spec", Json.mkObj [
               ("closed", Json.bool (Spec.closed mir)), ("acyclic", Json.bool (Spec.acyclic mir)),
               ("scoped", Json.bool (Spec.argScoped mir)), ("exact", Json.bool (Spec.exact mir)),
-              ("storeWF", Json.bool (Spec.storeWF m.st))])]]
+              ("storeWF", Json.bool (Spec.storeWF m.st)),
+              ("clean", Json.bool clean), ("edges", Json.bool (Edge.storeEdgesOK m.st))])]]
           | .error e => out := out ++ [Json.mkObj [("err", Json.str (errStr e))]]
       | .error _ => out := out ++ [Json.mkObj [("error", Json.str "bad event")]]
   return (out, m)
